@@ -36,6 +36,9 @@ type ruleSpec struct {
 	From [][]atom `json:"from,omitempty"`
 	To   [][]atom `json:"to,omitempty"`
 	When []atom   `json:"when,omitempty"`
+	// MergeWhen puts the `when` atoms of one key into a single condition (values and notValues
+	// together) instead of one condition per atom.
+	MergeWhen bool `json:"merge_when,omitempty"`
 }
 
 type polSpec struct {
@@ -65,7 +68,11 @@ func (r ruleSpec) shape() string {
 	}
 	sort.Strings(w)
 	if len(w) > 0 {
-		parts = append(parts, "when["+strings.Join(w, " ")+"]")
+		tag := "when["
+		if r.MergeWhen {
+			tag = "when-one-condition["
+		}
+		parts = append(parts, tag+strings.Join(w, " ")+"]")
 	}
 	return "{" + strings.Join(parts, " ") + "}"
 }
@@ -117,8 +124,22 @@ func (p polSpec) toProto() *authzpb.AuthorizationPolicy {
 			}
 			pr.To = append(pr.To, &authzpb.Rule_To{Operation: o})
 		}
+		byKey := map[string]*authzpb.Condition{}
 		for _, a := range r.When {
-			c := &authzpb.Condition{Key: strings.TrimPrefix(a.Field, "when:")}
+			key := strings.TrimPrefix(a.Field, "when:")
+			c := byKey[key]
+			if c != nil {
+				if a.Not {
+					c.NotValues = append(c.NotValues, a.Values...)
+				} else {
+					c.Values = append(c.Values, a.Values...)
+				}
+				continue
+			}
+			c = &authzpb.Condition{Key: key}
+			if r.MergeWhen {
+				byKey[key] = c
+			}
 			if a.Not {
 				c.NotValues = append(c.NotValues, a.Values...)
 			} else {
@@ -388,6 +409,10 @@ func pairRules(a, b atom) []ruleSpec {
 	}
 	if pa == pb && pa == placeTo {
 		out = append(out, ruleSpec{To: [][]atom{{a}, {b}}})
+	}
+	if pa == pb && pa == placeWhen && a.Field == b.Field && a.Not != b.Not {
+		// one condition carrying values and notValues
+		out = append(out, ruleSpec{When: []atom{a, b}, MergeWhen: true})
 	}
 	return out
 }
